@@ -14,6 +14,14 @@ CLAIMS = {
    technique="Coq proof (codec round trips, generated tables) + translator tie + extracted-model differential correspondence + implementation-side oracle search",
    design_ref="DESIGN.md section 5 C08"),
 }
+CLAIMS['C07'] = dict(
+   text="Machine-checked theorems (Props/C07.v) over tables regenerated from bios/skew.rs, img/disk35.rs, img/imd.rs, img/td0.rs on every run: the DOS 3.3 "
+        "logical/physical tables are mutually inverse permutations; every DOS, ProDOS and Apple-CP/M block occupies the same physical sectors (order and offsets) in DO "
+        "and NIB/WOZ images; the ProDOS block map tiles the 560 sectors; the 3.5in zone maps are injective and in range; IMD and TD0 carry identical skew tables, each a "
+        "permutation. Tie: for every container the records a block write actually touches (found by scanning all physical sectors) must equal the model's cells; "
+        "impl-side oracle applies the same write history to every container of a kind and compares every block and every physical sector pairwise. FS-level histories are added with the FS models.",
+   technique="Coq proof over generated skew/zone tables (finite sweeps lifted by lemma) + cell-probe correspondence + cross-container oracle",
+   design_ref="DESIGN.md section 5 C07")
 PLANNED = {f'C{i:02d}': 'check not built yet in this round (planned; see DESIGN.md section 10)' for i in range(1, 21)}
 
 def main():
